@@ -85,6 +85,44 @@ fn check_lib(path: &str) -> (Value, Vec<(String, String)>, bool) {
     (case, fails, true)
 }
 
+/// The target's own [vdso]: a module that exists in memory only, whose dynamic section the loader never
+/// relocated (DT_STRTAB is still module-relative). Read through target memory, through a byte copy of the
+/// mapping, and judged against the independent parser on that copy.
+fn check_vdso() -> (Value, Vec<(String, String)>, bool) {
+    let case = json!({"memory_vs_file": "[vdso]"});
+    let mut fails = Vec::new();
+    let mut p = Puppet::spawn();
+    p.quiesce();
+    let maps = parse_maps(&p.maps_text()).unwrap_or_default();
+    let Some(l) = maps.iter().find(|l| l.name.as_deref() == Some(&b"[vdso]"[..])) else {
+        return (case, fails, false);
+    };
+    let (base, len) = (l.start, (l.end - l.start) as usize);
+    let bytes = p.read(base, len);
+    if bytes.len() != len {
+        return (case, fails, false);
+    }
+    let mem = from_memory(p.pid, base);
+    let copy = guarded(|| Ident { build_id: BuildId::read_from_module(ProcessMemory::from(&bytes[..])).ok().map(|b| b.0), soname: SoName::read_from_module(ProcessMemory::from(&bytes[..])).ok().map(|s| s.0) });
+    match (&mem, &copy) {
+        (Err(pn), _) | (_, Err(pn)) => fails.push(("memory-vs-file/panic".into(), format!("[vdso]: {pn}"))),
+        (Ok(m), Ok(f)) => {
+            if m.build_id.is_some() && f.build_id.is_some() && m.build_id != f.build_id {
+                fails.push(("memory-vs-file/build-id".into(), format!("[vdso]: build id from target memory {:?} != from a byte copy of the mapping {:?}", m.build_id.as_ref().map(|b| mdv_core::hex(b)), f.build_id.as_ref().map(|b| mdv_core::hex(b)))));
+            }
+            if m.soname.is_some() && f.soname.is_some() && m.soname != f.soname {
+                fails.push(("memory-vs-file/soname".into(), format!("[vdso]: SONAME from target memory {:?} != from a byte copy of the mapping {:?}", m.soname, f.soname)));
+            }
+            // (an error is not an answer: where the memory reader gives none, the copy's is judged)
+            let answered = Ident { build_id: m.build_id.clone().or_else(|| f.build_id.clone()), soname: m.soname.clone().or_else(|| f.soname.clone()) };
+            if let Some((k, msg)) = agree(&bytes, &answered, "memory") {
+                fails.push((k, format!("[vdso] (read from target memory): {msg}")));
+            }
+        }
+    }
+    (case, fails, true)
+}
+
 pub fn run(ctx: &Ctx, rep: &mut Report) {
     let libs = candidates(ctx.tier.is_thorough());
     let results = par_map(&libs, |_, l| check_lib(l));
@@ -102,6 +140,17 @@ pub fn run(ctx: &Ctx, rep: &mut Report) {
             rep.violation(&k, &m, case.clone());
         }
     }
+    {
+        let (case, fails, ok) = check_vdso();
+        rep.evaluations += 1;
+        if ok {
+            rep.nontrivial += 1;
+        }
+        for (k, m) in fails {
+            rep.violation(&k, &m, case.clone());
+        }
+        rep.set("vdso_compared", json!(ok));
+    }
     rep.set("memory_vs_file", json!({"candidates": libs.len(), "loaded_and_compared": loaded}));
     if loaded < 5 {
         rep.machinery(format!("only {loaded} libraries could be loaded into the puppet"));
@@ -110,7 +159,7 @@ pub fn run(ctx: &Ctx, rep: &mut Report) {
 
 pub fn replay(case: &Value, rep: &mut Report) {
     if let Some(p) = case.get("memory_vs_file").and_then(|p| p.as_str()) {
-        let (c, fails, _) = check_lib(p);
+        let (c, fails, _) = if p == "[vdso]" { check_vdso() } else { check_lib(p) };
         rep.evaluations += 1;
         for (k, m) in fails {
             rep.violation(&k, &m, c.clone());
